@@ -449,3 +449,32 @@ func verifScaleCLI(a, b JsonNode, fi int) string { return verifCLICheck(a, b, fi
 // verifListOfObjects (C06, C07): the list-mode statements over arrays whose members are objects and
 // arrays that differ by a permutation of values, by sign, or slightly.
 func verifListOfObjects(a, b JsonNode) string { return verifRandHunks(a, b) }
+
+// verifPatchedEquals (C04, C05): a document produced by Patch is an ordinary document: (1) patched
+// with a list-mode diff it Equals, and diffs empty against, exactly the documents b does, under every
+// option set o2; (2) patched under any option set o1 it Equals the document read back from its own
+// JSON text (no options), in both directions.
+func verifPatchedEquals(a, b, c JsonNode, o1, o2 []Option) string {
+	r, err := verifCloneNode(a).Patch(verifCloneDiff(a.Diff(b)))
+	if err == nil {
+		if r.Equals(c, o2...) != b.Equals(c, o2...) || c.Equals(r, o2...) != c.Equals(b, o2...) {
+			return "the patched a and b compare differently with c"
+		}
+		if !r.Equals(b, o2...) || !b.Equals(r, o2...) {
+			return "the patched a is not Equal to b under other options"
+		}
+		if (len(r.Diff(c, o2...)) == 0) != (len(b.Diff(c, o2...)) == 0) || (len(c.Diff(r, o2...)) == 0) != (len(c.Diff(b, o2...)) == 0) {
+			return "the patched a and b diff differently against c"
+		}
+	}
+	if verifDomain(a, b, o1) && !isVoid(a) && !isVoid(b) {
+		r1, err := verifCloneNode(a).Patch(verifCloneDiff(a.Diff(b, o1...)))
+		if err == nil && !isVoid(r1) {
+			fresh, ferr := ReadJsonString(r1.Json())
+			if ferr != nil || !r1.Equals(fresh) || !fresh.Equals(r1) {
+				return "a patched document is not Equal to itself read back from its JSON text"
+			}
+		}
+	}
+	return ""
+}
